@@ -110,7 +110,7 @@ theorem c09_deposit_requires {s : State} {r : State × Nat} {c : Nat} {tk : Tk} 
   intro depositor
   unfold houseDepositO at h
   simp only [bind, Option.bind_eq_some_iff, pure, Option.some.injEq] at h
-  obtain ⟨_, _, _, h1, _, h2, s1, hs1, _, h3, mk, _, b, hb, _, _, _, _, _, h6, s2, hs2, s3, hs3, rfl⟩ := h
+  obtain ⟨_, _, _, h1, _, h2, s1, hs1, _, h3, mk, _, b, hb, _, _, _, _, _, h6, _, _, s2, hs2, s3, hs3, rfl⟩ := h
   have h1 := chk_some h1; have h2 := chk_some h2; have h3 := chk_some h3; have h6 := chk_some h6
   refine ⟨h2, h3, by simpa using h1, ?_, s1, s2, s3, _, rfl, hs1, hs2, hs3, rfl, b, hb, by simpa using h6, rfl⟩
   intro hne
